@@ -1,0 +1,41 @@
+//go:build verif
+
+// Contracts for package transformer, checked by /verif/govc (see /verif/DESIGN.md).
+// Comments and import anchors only; compiled only with -tags verif.
+package transformer
+
+import (
+	openfgav1 "github.com/openfga/api/proto/openfga/v1"
+)
+
+var _ *openfgav1.Userset
+
+// ---------------------------------------------------------------------------------------------------------------
+// C14: canonical order. sortByModule is the comparator handed to slices.SortStableFunc.
+
+//@ func sortByModule
+//@   props C14
+//@   inline
+//@   ensures unattributed_first: aModule == "" && bModule != "" ==> result < 0
+//@   ensures attributed_last:    aModule != "" && bModule == "" ==> result > 0
+//@   ensures by_module_lt:       aModule != "" && bModule != "" && aModule < bModule ==> result < 0
+//@   ensures by_module_gt:       aModule != "" && bModule != "" && bModule < aModule ==> result > 0
+//@   ensures by_file_lt:         aModule != "" && aModule == bModule && aFile < bFile ==> result < 0
+//@   ensures by_file_gt:         aModule != "" && aModule == bModule && bFile < aFile ==> result > 0
+//@   ensures by_name:            ((aModule == "" && bModule == "") || (aModule != "" && aModule == bModule && aFile == bFile))
+//@                                 ==> ((result < 0 <==> aName < bName) && (result == 0 <==> aName == bName) && (result > 0 <==> bName < aName))
+//@   ensures zero_iff_same_key:  result == 0 <==> (aName == bName && aModule == bModule && (aModule == "" || aFile == bFile))
+
+//@ lemma sortByModule_antisymmetric {C14}: forall an string, bn string, am string, bm string, af string, bf string ::
+//@     (sortByModule(an, bn, am, bm, af, bf) < 0 <==> sortByModule(bn, an, bm, am, bf, af) > 0)
+//@  && (sortByModule(an, bn, am, bm, af, bf) == 0 <==> sortByModule(bn, an, bm, am, bf, af) == 0)
+
+//@ lemma sortByModule_transitive {C14}: forall an string, bn string, cn string, am string, bm string, cm string, af string, bf string, cf string ::
+//@     sortByModule(an, bn, am, bm, af, bf) <= 0 && sortByModule(bn, cn, bm, cm, bf, cf) <= 0 ==> sortByModule(an, cn, am, cm, af, cf) <= 0
+
+//@ func constructSourceComment
+//@   props C14
+//@   inline
+//@   ensures exact: result == ite((module == "" && file == "") || !includeSourceInformation, "",
+//@                               " #" + leadingString + " module: " + module + ", file: " + file)
+//@   ensures comment_shape: result == "" || hasPrefix(result, " #")
